@@ -197,6 +197,13 @@ func (r *Replica) syncOnce(ctx context.Context, maxSyncLTXFiles int) (result rep
 		return result, errReplicaWaitForData
 	}
 
+	// The replica must never be ahead of the local position: the upload loop
+	// below would have nothing to do and the sync would be acknowledged even
+	// though none of the local transactions are on the replica.
+	if pos := r.Pos(); pos.TXID > dpos.TXID {
+		return result, fmt.Errorf("replica position (%s) is ahead of database position (%s)", pos.TXID, dpos.TXID)
+	}
+
 	r.Logger().Info("replica sync",
 		slog.Group("txid",
 			slog.String("replica", r.Pos().TXID.String()),
